@@ -10,7 +10,7 @@ PROPERTY = 'C01'
 LEVEL = 'model_checking'
 ENGINE = 'symx'
 BOUNDS = {
-    'quick': dict(L1='(m,t) in {(1,0)[L2],(2,0),(3,1),(4,1),(5,2)} x PRSS on/off, l=8, k=30, corpus ' + ','.join(sorted(l1.CORPUS)),
+    'quick': dict(L1='(m,t) in {(1,0)[L2],(2,0),(3,1),(4,1),(5,2)} x PRSS on/off, l=8, k=30, corpus mul_add,linear,in_prod,prod3,pow3,vec,matrix,select,allany,output_conv',
                   L2='l=4 (both operands over the full l-bit range), k=30, real field; mod b for b in 2..5'),
     'thorough': dict(L1='(2,0),(3,0),(3,1),(4,1),(5,1),(5,2),(6,2),(7,3) x PRSS on/off, l=8',
                      L2='l in {3,4,5,6}; mod b for b in 2..5 and 8'),
